@@ -20,8 +20,19 @@ fn small_part(rng: &mut Rng, case: u64) -> Envelope {
     gen::build(&m, Route::Plain, rng)
 }
 
-pub const OPS: [&str; 27] = [
-    "add", "add_duplicate", "add_salted", "add_envelope_obscured", "remove_existing", "remove_absent", "remove_all", "replace_assertion", "replace_subject_leaf",
+/// an envelope that is neither an assertion nor obscured (must never end up in an assertion slot)
+fn nonassertion(rng: &mut Rng, case: u64) -> Envelope {
+    match rng.below(5) {
+        0 => Envelope::new(format!("not-an-assertion-{}", case)),
+        1 => Envelope::new(KnownValue::new(case % 50)),
+        2 => Envelope::new_assertion("p", case).wrap_envelope(),
+        3 => Envelope::new("subject").add_assertion("has", "assertions"),
+        _ => Envelope::new("x").wrap_envelope().add_assertion("k", 1),
+    }
+}
+
+pub const OPS: [&str; 33] = [
+    "add_nonassertion_envelope", "add_nonassertion_salted", "add_nonassertion_optional", "add_nonassertion_batch", "replace_with_nonassertion", "add_nonassertion_if", "add", "add_duplicate", "add_salted", "add_envelope_obscured", "remove_existing", "remove_absent", "remove_all", "replace_assertion", "replace_subject_leaf",
     "replace_subject_node", "replace_subject_obscured", "wrap", "unwrap", "elide_some", "elide_revealing", "compress", "compress_subject", "uncompress", "uncompress_subject",
     "encrypt_subject", "decrypt_subject", "add_salt", "add_signature", "add_recipient", "add_type", "add_attachment", "encode_decode",
 ];
@@ -57,6 +68,29 @@ pub fn run(ctx: &mut Ctx) {
                         let a = rng.pick(&asr).clone();
                         Some(cur.add_assertion_envelope(a).ok()?)
                     }
+                    // offering something that is not an assertion must fail (or at least never produce a
+                    // node with a non-assertion element - judged by S1 on whatever comes back)
+                    "add_nonassertion_envelope" => cur.add_assertion_envelope(nonassertion(rng, case)).ok(),
+                    "add_nonassertion_salted" => cur.add_assertion_envelope_salted(nonassertion(rng, case), rng.chance(1, 2)).ok(),
+                    "add_nonassertion_optional" => {
+                        if rng.chance(1, 2) {
+                            cur.add_optional_assertion_envelope(Some(nonassertion(rng, case))).ok()
+                        } else {
+                            cur.add_optional_assertion_envelope_salted(Some(nonassertion(rng, case)), rng.chance(1, 2)).ok()
+                        }
+                    }
+                    "add_nonassertion_batch" => {
+                        let mut batch: Vec<Envelope> = asr.iter().take(2).cloned().collect();
+                        batch.push(nonassertion(rng, case));
+                        cur.add_assertion_envelopes(&batch).ok()
+                    }
+                    "replace_with_nonassertion" => {
+                        if asr.is_empty() {
+                            return None;
+                        }
+                        cur.replace_assertion(rng.pick(&asr).clone(), nonassertion(rng, case)).ok()
+                    }
+                    "add_nonassertion_if" => cur.add_assertion_envelope_if(true, nonassertion(rng, case)).ok(),
                     "add_salted" => Some(cur.add_assertion_salted(small_part(rng, case), small_part(rng, case), true)),
                     "add_envelope_obscured" => {
                         let a = Envelope::new_assertion(small_part(rng, case), small_part(rng, case));
@@ -143,7 +177,12 @@ pub fn run(ctx: &mut Ctx) {
                     break;
                 }
                 Ok(None) => {
-                    ctx.count("op_not_applicable");
+                    if op.contains("nonassertion") {
+                        ctx.eval();
+                        ctx.count("invalid_argument_ops_refused");
+                    } else {
+                        ctx.count("op_not_applicable");
+                    }
                     continue;
                 }
                 Ok(Some(next)) => {
